@@ -347,7 +347,9 @@ class Program:
         except OSError:
             kc = set()
         self.unwrapped_lock_holders = unwrap_lock_holders({m.name: m.tree for m in self.modules.values()}, kc)
-        from .normalise import tuple_result_records
+        from .normalise import inline_tail_closures, tuple_result_records
+
+        self.inlined_tail_closures = inline_tail_closures({m.name: m.tree for m in self.modules.values()}, kf)
 
         self.tupled_records = tuple_result_records({m.name: m.tree for m in self.modules.values()}, kc)
 
